@@ -74,7 +74,15 @@ class ServerConn:
             net.cmd_counter += 1
             net.sent_cmds.append(cmd)
             rf = net.plan.get(("reply", idx))
-            if rf is None:
+            mode = getattr(self.server, "mode", None)
+            if rf is None and mode == "hang":
+                # the server takes the request and never answers: the client's read times out
+                self.silent = True
+                net.units.append((net.call_id, idx, 0))
+                continue
+            if rf is None and mode == "mcerr":
+                rep = b"" if cmd.get("noreply") else b"SERVER_ERROR out of memory storing object\r\n"
+            elif rf is None:
                 rep = self.server.apply(cmd)
             else:
                 self.server.log.append(dict(cmd, faulted=rf))
@@ -190,7 +198,7 @@ class FakeSocket:
             # environment -- a client that resolves the name again reaches the server
             f = "nowhere"
             srv = None
-        if f is None and (srv is None or srv.down):
+        if f is None and (srv is None or srv.down or getattr(srv, "mode", None) == "refuse"):
             f = "refused"
         self.server_key = key
         self._ev("connect", tmo=self.tmo, a=self.net.addr_name(addr), srv=str(key), fault=f or "none")
@@ -206,6 +214,8 @@ class FakeSocket:
             self._ev("send", **self._io_defaults("send"), fault="not-connected")
             raise OSError(errno.ENOTCONN, "not connected")
         f = self._fault("sendall")
+        if f is None and getattr(self.conn.server, "mode", None) == "refuse":
+            f = "reset"             # the server went away while this connection was open
         n0 = self.net.cmd_counter
         e0 = self.net.err_replies
         if f is None or f in INTERRUPTS:
